@@ -4,10 +4,12 @@ import (
 	"fmt"
 	"os"
 	"sort"
+	"strings"
 	"testing"
 	"time"
 
 	mapset "github.com/deckarep/golang-set"
+	"github.com/idena-network/idena-go/blockchain/attachments"
 	"github.com/idena-network/idena-go/blockchain/types"
 	"github.com/idena-network/idena-go/blockchain/validation"
 	"github.com/idena-network/idena-go/common"
@@ -24,6 +26,9 @@ import (
 	"verifharness/internal/evid"
 	"verifharness/internal/sim"
 )
+
+// rangeTxTypesBusy keeps the online validator set changing: status toggles dominate.
+var rangeTxTypesBusy = []types.TxType{types.OnlineStatusTx, types.OnlineStatusTx, types.OnlineStatusTx, types.OnlineStatusTx, types.OnlineStatusTx, types.SendTx, types.DelegateTx, types.KillTx, types.UndelegateTx, types.InviteTx}
 
 var rangeTxTypes = []types.TxType{types.SendTx, types.SendTx, types.OnlineStatusTx, types.OnlineStatusTx, types.DelegateTx, types.KillTx, types.InviteTx, types.ReplenishStakeTx, types.BurnTx, types.UndelegateTx}
 
@@ -43,7 +48,7 @@ type served struct {
 
 // extendPeer builds the next honest block on the peer's chain (proposed through a temporary node of an eligible
 // actor, or empty), certifies it with real committee votes and inserts it.
-func extendPeer(t *rapid.T, w *sim.World, side *sim.Replica) served {
+func extendPeer(t *rapid.T, w *sim.World, side *sim.Replica, txTypes []types.TxType) served {
 	w.Advance(time.Duration(rapid.IntRange(10, 40).Draw(t, "dt")) * time.Second)
 	if min := time.Unix(side.Head().Time(), 0).Add(10 * time.Second); w.Now().Before(min) {
 		w.SetNow(min)
@@ -59,7 +64,7 @@ func extendPeer(t *rapid.T, w *sim.World, side *sim.Replica) served {
 	if len(eligible) > 0 && pick(t, "emptyBlock", 6) != 5 {
 		tmp := copyAs(t, w, side, "tmp-proposer", eligible[pick(t, "proposer", len(eligible))])
 		for i := pick(t, "nTx", 4); i > 0; i-- {
-			tx, _ := w.GenTx(t, tmp, rangeTxTypes)
+			tx, _ := w.GenTx(t, tmp, txTypes)
 			tmp.Pool.AddExternalTxs(validation.MempoolTx, tx)
 		}
 		blk = tmp.Propose().Block
@@ -124,13 +129,56 @@ func TestRanges(t *testing.T) {
 			}
 		}()
 		evid.Eval()
-		h := sim.RunHistory(t, sim.Options{MinActors: 4, MaxActors: 8, Replicas: 1, MaxReplicas: 3, Steps: rapid.IntRange(2, 9).Draw(t, "prefix"), MaxTxPerStep: 4, OnlyTypes: rangeTxTypes,
+		// "busy" worlds: every validated identity goes online at the start and status toggles dominate the traffic, with
+		// a status-switch block every second height, so that the ONLINE VALIDATOR SET CHANGES SIZE between the common
+		// ancestor / sync start, the blocks of the range and the node's head
+		busy := pick(t, "busyValidators", 3) != 2
+		txTypes := rangeTxTypes
+		if busy {
+			txTypes = rangeTxTypesBusy
+			evid.Count("range.world.busy_validators")
+		}
+		h := sim.RunHistory(t, sim.Options{MinActors: 4, MaxActors: 8, Replicas: 1, MaxReplicas: 3, Steps: rapid.IntRange(2, 9).Draw(t, "prefix"), MaxTxPerStep: 4, OnlyTypes: txTypes,
 			Params: func(p *sim.Params) {
 				p.CeremonyIn = 100000
+				if busy {
+					p.SwitchRng = 2
+				}
 				for i := range p.States {
-					if i%2 == 1 {
+					if i%2 == 1 || busy && i > 0 && i < 5 {
 						p.States[i] = state.Verified
 						p.Stakes[i] = sim.Dna(int64(10 + i))
+						p.Balances[i] = sim.Dna(1000)
+					}
+				}
+			},
+			BetweenBlocks: func(h *sim.History) {
+				if !busy {
+					return
+				}
+				base := h.W.Replicas[0]
+				st := base.ReadState()
+				if len(h.Blocks) == 0 {
+					// a drawn subset of the validated identities goes online right away
+					for _, a := range h.W.Actors {
+						if !st.ValidatorsCache.IsValidated(a.Addr) || pick(t, "onlineAtStart", 3) == 2 {
+							continue
+						}
+						tx, err := types.SignTx(&types.Transaction{Type: types.OnlineStatusTx, Epoch: st.State.Epoch(), AccountNonce: base.AppState.NonceCache.GetNonce(a.Addr, st.State.Epoch()) + 1,
+							MaxFee: sim.Dna(100), Payload: attachments.CreateOnlineStatusAttachment(true)}, a.Key)
+						if err == nil {
+							for _, r := range h.W.Replicas {
+								r.Pool.AddExternalTxs(validation.MempoolTx, tx)
+							}
+						}
+					}
+					return
+				}
+				// and somebody toggles at (nearly) every step
+				for i := pick(t, "nToggles", 3); i > 0; i-- {
+					tx, _ := h.W.GenTx(t, base, []types.TxType{types.OnlineStatusTx})
+					for _, r := range h.W.Replicas {
+						r.Pool.AddExternalTxs(validation.MempoolTx, tx)
 					}
 				}
 			}})
@@ -139,14 +187,28 @@ func TestRanges(t *testing.T) {
 		peerSide := copyAs(t, w, base, "peer", w.God)
 		common0 := base.Head().Height()
 		// shape of the answer: honest, random hostile edits of its elements, or a structural defect of the list
-		shape := rapid.SampledFrom([]string{"hostile", "hostile", "hostile", "honest", "gap", "repeated-height", "reversed", "hostile"}).Draw(t, "shape")
+		shape := rapid.SampledFrom([]string{"hostile", "hostile", "hostile", "honest", "gap", "repeated-height", "reversed", "hostile", "honest", "certified-hostile-tip"}).Draw(t, "shape")
 		minBlocks := 1
 		if shape == "gap" {
 			minBlocks = 3
 		}
+		sizeAtStart := base.AppState.ValidatorsCache.ValidatorsSize()
+		evid.Count(fmt.Sprintf("range.online_validators_at_start.%d", sizeAtStart))
+		shrinks, grows := false, false
 		var chain []served
 		for i := rapid.IntRange(minBlocks, 5).Draw(t, "peerBlocks"); i > 0; i-- {
-			chain = append(chain, extendPeer(t, w, peerSide))
+			chain = append(chain, extendPeer(t, w, peerSide, txTypes))
+			if n := peerSide.AppState.ValidatorsCache.ValidatorsSize(); n < sizeAtStart && n > 0 {
+				shrinks = true
+			} else if n > sizeAtStart && sizeAtStart > 0 {
+				grows = true
+			}
+		}
+		if shrinks {
+			evid.Count("range.validator_set_shrinks_inside_range")
+		}
+		if grows {
+			evid.Count("range.validator_set_grows_inside_range")
 		}
 		// the message an honest peer would send ...
 		r := &protocol.VerifBlockRange{BatchId: 7}
@@ -161,6 +223,13 @@ func TestRanges(t *testing.T) {
 		switch shape {
 		case "hostile":
 			hostileRange(t, w, r)
+		case "certified-hostile-tip":
+			// one more element on top: a header with a hostile edit that the committee of that height CERTIFIED
+			// (real votes of the committee members - a colluding quorum; a single peer cannot produce it)
+			if tip := certifiedHostileTip(t, w, peerSide); tip != nil {
+				r.Blocks = append(r.Blocks, tip.item)
+				edit += ":" + tip.label
+			}
 		case "gap":
 			k := 1 + pick(t, "gapAt", len(r.Blocks)-2)
 			r.Blocks = append(append([]*protocol.VerifRangeBlock{}, r.Blocks[:k]...), r.Blocks[k+1:]...)
@@ -172,7 +241,7 @@ func TestRanges(t *testing.T) {
 				r.Blocks[i], r.Blocks[j] = r.Blocks[j], r.Blocks[i]
 			}
 		}
-		evid.Count("range." + edit)
+		evid.Count("range." + strings.SplitN(edit, "(", 2)[0])
 		if hasDiff {
 			evid.Count("range.with_identity_diff")
 		}
@@ -213,6 +282,11 @@ func TestRanges(t *testing.T) {
 				if err := own.AddBlock(own.EmptyBlock()); err != nil {
 					t.Fatalf("own empty block: %v", err)
 				}
+			}
+			if live := own.AppState.ValidatorsCache.ValidatorsSize(); sizeAtStart > 0 && live > sizeAtStart {
+				evid.Count("range.fork.live_validator_set_larger_than_at_fork_point")
+			} else if sizeAtStart > 0 && live < sizeAtStart {
+				evid.Count("range.fork.live_validator_set_smaller_than_at_fork_point")
 			}
 			fs := protocol.NewFullSync(nil, log.New(), own.Chain, own.Ipfs, own.AppState, mapset.NewSet(), 0, collector.NewStatsCollector())
 			var bundles []types.BlockBundle
@@ -350,4 +424,49 @@ func TestRanges(t *testing.T) {
 		}
 		_ = common.Hash{}
 	})
+}
+
+type hostileTip struct {
+	item  *protocol.VerifRangeBlock
+	label string
+}
+
+// certifiedHostileTip builds the next block on the peer's head with a hostile header edit that leaves the header
+// checks of the sync routes intact, and a certificate of the real committee over THAT header.
+func certifiedHostileTip(t *rapid.T, w *sim.World, side *sim.Replica) *hostileTip {
+	w.Advance(20 * time.Second)
+	var eligible []*sim.Actor
+	vc := side.AppState.ValidatorsCache
+	for _, a := range w.Actors {
+		if vc.IsOnlineIdentity(a.Addr) || side.AppState.State.GodAddress() == a.Addr && vc.OnlineSize() == 0 {
+			eligible = append(eligible, a)
+		}
+	}
+	if len(eligible) == 0 {
+		return nil
+	}
+	tmp := copyAs(t, w, side, "tmp-tip", eligible[pick(t, "tipProposer", len(eligible))])
+	blk := cloneBlock(t, tmp.Propose().Block)
+	if blk.Body == nil {
+		blk.Body = &types.Body{}
+	}
+	ph := blk.Header.ProposedHeader
+	var label string
+	switch pick(t, "tipEdit", 4) {
+	case 0, 1:
+		label = hostileBloom(t, ph)
+	case 2:
+		ph.TxReceiptsCid = rapid.SampledFrom([][]byte{{1}, make([]byte, 40), cid1(9)}).Draw(t, "tipReceipts")
+		label = "TxReceiptsCid"
+	default:
+		ph.IpfsHash = rapid.SampledFrom([][]byte{{1}, make([]byte, 40), cid1(9)}).Draw(t, "tipIpfs")
+		label = "IpfsHash"
+	}
+	blk = finishBlock(t, blk, &blockCase{}).block
+	cert := w.MakeCert(side, blk, sim.CertValid)
+	if cert.Empty() {
+		return nil
+	}
+	evid.Count("range.certified_tip." + strings.SplitN(label, "(", 2)[0])
+	return &hostileTip{protocol.VerifC12NewRangeItem(blk.Header, cert, nil), label}
 }
